@@ -392,6 +392,12 @@ func (s *sim) classify(err error) string {
 	return "other:" + common.HexS(err.Error())
 }
 
+// hangsSeen counts hangs that were not predicted (ctx-aware fakes, end-to-end watchdogs) in this process.
+var hangsSeen atomic.Int32
+
+// HangTimeoutAfterHangs replaces the generous limits once three unexpected hangs were seen.
+var HangTimeoutAfterHangs = 400 * time.Millisecond
+
 // HangTimeout is how long nothing may happen (everything blocked, ctx already cancelled) before a hang is declared.
 var (
 	HangTimeoutAware   = 3 * time.Second
@@ -441,6 +447,9 @@ func RunL1(line string) string {
 	rng := rand.New(rand.NewSource(sc.Seed))
 	hung := false
 	hangTO := HangTimeoutAware
+	if hangsSeen.Load() >= 3 {
+		hangTO = HangTimeoutAfterHangs // the run is already failing: keep the remaining hangs cheap
+	}
 	if !sc.IA || !sc.OA {
 		hangTO = HangTimeoutUnaware
 	}
@@ -484,6 +493,9 @@ func RunL1(line string) string {
 			if !hung {
 				s.logf("hang")
 				hung = true
+				if sc.IA && sc.OA {
+					hangsSeen.Add(1)
+				}
 			}
 			for r, pc := range s.parked {
 				if !pc.done {
